@@ -23,6 +23,11 @@ func Ports(svc *v1.Service) []allocator.Port {
 // BackendKey extracts the backend key for a service.
 func BackendKey(svc *v1.Service) string {
 	if svc.Spec.ExternalTrafficPolicy == v1.ServiceExternalTrafficPolicyTypeLocal {
+		if len(svc.Spec.Selector) == 0 {
+			// A Local service without selector must not get the backend key of the
+			// Cluster services (""), or it could share an address with any of them.
+			return "<local, no selector>"
+		}
 		return labels.Set(svc.Spec.Selector).String()
 	}
 	// Cluster traffic policy can share services regardless of backends.
